@@ -16,6 +16,7 @@
  */
 #define _GNU_SOURCE 1
 #include <dirent.h>
+#include <dlfcn.h>
 #include <errno.h>
 #include <fcntl.h>
 #include <limits.h>
@@ -369,8 +370,25 @@ static void strategies(U64* cookies, int depth, int maxDepth) {
     }
 }
 
+/* the host's directory positions are opaque 64-bit values (ext4 hands out hashes above 2^32, tmpfs small numbers): with cookieBias set
+   the harness presents the positions of this file system shifted beyond 2^32 to everybody in the process - wasi.c and the reference
+   listing alike - so that "a cookie is a 64-bit quantity" is exercised on any file system */
+static long cookieBias;
+long telldir(DIR* d) {
+    static long (*real)(DIR*);
+    long v;
+    if (!real) real = (long (*)(DIR*))dlsym(RTLD_NEXT, "telldir");
+    v = real(d);
+    return v < 0 ? v : v + cookieBias;
+}
+void seekdir(DIR* d, long pos) {
+    static void (*real)(DIR*, long);
+    if (!real) real = (void (*)(DIR*, long))dlsym(RTLD_NEXT, "seekdir");
+    real(d, pos - cookieBias);
+}
+
 static void e3(char* line) {
-    char* f[6];
+    char* f[7];
     static const int lens[4] = {1, 2, 24, 255};
     int n, lenmode, typeoff, i, calls = 0, maxDepth;
     char p[900], d[700];
@@ -379,7 +397,11 @@ static void e3(char* line) {
     int ncks, delivered = 0, longest = 2;
     DIR* dir;
     struct dirent* de;
-    if (hx_split(line, ',', f, 6) != 6) _exit(71);
+    {
+        int nf = hx_split(line, ',', f, 7);
+        if (nf != 6 && nf != 7) _exit(71);
+        cookieBias = nf == 7 && atoi(f[6]) ? (long)0x500000000LL + 7 : 0;
+    }
     n = atoi(f[0]); lenmode = atoi(f[1]); typeoff = atoi(f[2]); bufLen = strtoul(f[3], 0, 10); nsE3 = atoi(f[4]); maxDepth = atoi(f[5]);
     hx_guest_alloc(GUEST, FILL);
     bufPtr = GUEST - bufLen;
